@@ -6,6 +6,12 @@ UNITS.update({
                                  classes=['NDSize', 'DataArrayA'], member_calls={'dataExtent': 'DataArrayA_dataExtent', 'setData': 'DataArrayA_setData'}, inherited_methods=['setData'],
                                  overloads={'DataArrayA_dataExtent': {0: 'DataArrayA_dataExtent_get', 1: 'DataArrayA_dataExtent_set'}}),
 })
+UNITS['DataArray_ioRead'] = dict(file='src/DataArray.cpp', locator=r'void\s+DataArray::ioRead\s*\(', cls='DataArrayR', cls_decl='DataArray', cls_file='include/nix/DataArray.hpp', classes=['NDSize', 'DataArrayR'],
+    member_calls={'polynomCoefficients': 'DataArrayR_polynomCoefficients', 'expansionOrigin': 'DataArrayR_expansionOrigin', 'getDataDirect': 'DataArrayR_getDataDirect', 'convertData': 'DataArrayR_convertData'},
+    inherited_methods=['getDataDirect', 'convertData'], calls={'memcpy': 'memcpy_rec'})
+READ_EXTRA = ('double gh_tmp_store[4]; int gh_reads, gh_polys, gh_convs, gh_copies, gh_resizes; DataType gh_read_type; const void *gh_read_buf; const NDSize *gh_read_count, *gh_read_offset;\n'
+              'const void *gh_poly_in, *gh_poly_out; size_t gh_poly_n; double gh_poly_origin; int gh_poly_after_reads; DataType gh_conv_from, gh_conv_to; const void *gh_conv_buf; size_t gh_conv_n; int gh_conv_after_polys;\n'
+              'const void *gh_copy_dst, *gh_copy_src; size_t gh_copy_bytes; int gh_copy_after_convs; size_t gh_resize_n; size_t gh_esize, gh_nelms;\n')
 EXTRA = ('int gh_extent_sets, gh_writes; int gh_writes_at_extent_set;\nsize_t gh_set_rank, gh_w_count_rank, gh_w_offset_rank; ndsize_t gh_set_k, gh_w_count_k, gh_w_offset_k;\n')
 BODIES = ['NDSize_size', 'NDSize_at', 'NDSize_allocate', 'NDSize_copy_ctor', 'NDSize_fill', 'NDSize_ctor_fill', 'DataArray_appendData']
 JOBS = rank_cases(dict(full_unwind=True, name='DataArray_appendData', bodies=BODIES, enforce=['DataArray_appendData'], replace=[], extra_c=EXTRA, cbmc_flags=UNW,
@@ -13,7 +19,8 @@ JOBS = rank_cases(dict(full_unwind=True, name='DataArray_appendData', bodies=BOD
 for j in JOBS:
     r = int(j['name'].split('rank=')[1].rstrip(']'))
     j['tiers'] = ('quick', 'thorough') if r <= 4 else ('thorough',)
-SPEC = dict(contracts=['nd.h', 'dv.h', 'c01_append.h'], stubs=['dataarray.h'], include_order=['nd.h', 'dataarray.h', 'dv.h', 'c01_append.h'], units=UNITS, jobs=JOBS,
+JOBS.append(dict(name='DataArray_ioRead', bodies=['DataArray_ioRead'], enforce=['DataArray_ioRead'], replace=[], includes=['nd.h', 'c01_read.h'], extra_c=READ_EXTRA, expect_kinds=['postcondition'], timeout=600))
+SPEC = dict(contracts=['nd.h', 'dv.h', 'c01_append.h', 'c01_read.h'], stubs=['dataarray.h'], include_order=['nd.h', 'dataarray.h', 'dv.h', 'c01_append.h'], units=UNITS, jobs=JOBS,
             trusted_base=['CBMC 6.11.0 (C front end, --dfcc, SAT back end)', 'vlib/cxx2c.py idiom map'] + ND_TRUST +
                          ['back end of the DataArray (dataExtent getter/setter, setData) is a ghost record of what it was asked to do'],
             assumptions=['kernel only: appendData\'s extent/offset arithmetic and its rejection conditions; quick tier ranks 0..4 (the property quantifies over ranks 1..4), thorough tier 0..32',
